@@ -10,6 +10,7 @@ package rules
 //	R-C09-2  c09_filter.go decision table of the filter's Handle
 //	R-C09-3  c09_filter.go state carry-over in the filter's reload
 //	R-C09-4  c09_mqtt.go   MQTT limiter wiring + the 1-permit / N-permit wrappers
+//	R-C09-5  c09_filter.go configured timeoutDuration reaches the limiter's policy (added in the second pass)
 //
 // Mutants tried in /tmp/vw/C09/repo (each compiles; one at a time, on top of fix-1 so that the
 // exit code is meaningful; diffs in /tmp/vw/C09/out/mutants) → obligation that fires:
@@ -57,8 +58,25 @@ package rules
 //	M21  mqtt acquirePermission: `if l.requestLimiter != nil && l.byteLimiter != nil`
 //	                                                   → R-C09-4 |result is the charged limiter's verdict
 //
+// Second pass (seeded regressions /verif/seeded/C09/{a,b}; /repo already contains the reload fix):
+//
+//	A1   seeded a: `rl.cycle = cycle` moved above the reject test
+//	                                                   → R-C09-1 |cycle and tokens are written back together
+//	A2   multi AcquirePermission: `rl.cycle = cycle` before the reject loop       → same
+//	A3   util: `rl.cycle = cycle` inside the reject branch                        → same
+//	A4   util: `rl.tokens = tokens` (rebased) before the reject test, cycle after → same
+//	B1   seeded b: parse, then `if policy.TimeoutDuration <= 0 { default }`
+//	                                                   → R-C09-5 |configured timeoutDuration reaches the limiter policy
+//	B2   `d != "" && d != "0s"`                        → same
+//	B3   default first, overridden only `if err == nil && v > 0`                  → same
+//	B4   timeout parsed from url.policy.LimitRefreshPeriod                        → same
+//	B5   `if policy.TimeoutDuration == 0 { default }` after the parse             → same
+//	PA   (preserving) `rl.tokens, rl.cycle = tokens, cycle` before the reject test, `rl.tokens = tokens + count` after
+//	PB1  (preserving) default in the Policy literal, overridden `if setting != ""`
+//	PB2  (preserving) `timeout, err := ParseDuration(setting); if err != nil { timeout = default }`
+//
 // Not caught by design (arithmetic, see NotDecided): `tokens > maxTokens`, a wrong wait
-// computation, a dropped `rl.cycle = cycle`, a wrong refresh period in the MQTT policies.
+// computation, a dropped `rl.cycle = cycle` on the permit path, a wrong refresh period in the MQTT policies.
 //
 // Behaviour-preserving edits tried (exit 0 on the fixed tree):
 //
@@ -107,6 +125,7 @@ func c09(c *core.Ctx) string {
 	c.Rule("R-C09-2", "filter Handle decision table: the limiter of a URL rule is charged only after that rule's Match returned true and at most once per request; rejected ⇒ 429 on the output response + result rateLimited; permitted ⇒ empty result and the imposed wait is served unless it is <= 0; no rule matched ⇒ empty result")
 	c.Rule("R-C09-3", "filter reload carry-over: a limiter is taken from the previous generation only where URLRule.DeepEqual and the policy comparison hold, whenever they hold it is taken, the carried limiter is live (non-nil), no new limiter is created after a carry-over, and every URL rule ends with a carried or a new limiter")
 	c.Rule("R-C09-4", "limiter wiring: RateLimiter.AcquirePermission charges 1 and AcquireNPermission(n) charges n; every MQTT limiter is built with timeout 0 (its wait is discarded), is configured with the rate of the unit it is charged in (1 per packet ↔ RequestRate, byteNum ↔ BytesRate, same order for the multi limiter), and Limiter.acquirePermission returns the verdict of the limiter it charged (true only when none is configured)")
+	c.Rule("R-C09-5", "policy translation: the timeout handed to the limiter constructor by the filter is the value parsed from the configured timeoutDuration; a built-in constant stands in only on paths where the setting is empty (or did not parse) — an explicit zero timeout is a legal policy and is not replaced by the default")
 	c.NotDecided = []string{
 		"headline clause: at most limitForPeriod releases per period and wait <= timeoutDuration (token/time arithmetic over arrival histories)",
 		"value semantics of URLRule.Match, URLRule.DeepEqual and of the policy comparison",
@@ -121,6 +140,7 @@ func c09(c *core.Ctx) string {
 	}
 	c09Handle(c)
 	c09Reload(c)
+	c09Policy(c)
 	c09Mqtt(c, lim, fns)
 	return "Structural necessary conditions of the rate limiter: lock discipline and reject-before-reserve typestate of the two limiter types (path-sensitive, all paths), the complete decision table of the filter's Handle (match → single acquire → 429/rateLimited | wait | pass), the carry-over logic of reload (all paths of the nested loops) and the unit/timeout wiring of the MQTT limiters. Not decided: the token/time arithmetic (per-period release bound, wait bound), value semantics of Match/DeepEqual, interleavings."
 }
